@@ -8,3 +8,4 @@ def agreement(chk, prog):
         chk.note("layout term agreement: decided by the C17 check")
         return
     layout_terms.agreement(chk, prog, alignment_clauses=False)
+    layout_terms.meta_written_only_at_allocation(chk, prog)
